@@ -30,6 +30,8 @@ type adapter struct {
 	run  func(base kcache.Controller, o *obs)
 	// stalled: one Subscribe whose consumer reads nothing until o.release is closed
 	stalled func(base kcache.Controller, o *obs)
+	// reuse: two handlers from ONE handler builder (callbacks replaced in between), one monitor each
+	reuse func(base kcache.Controller, o *obs)
 }
 
 var adapters []adapter
@@ -44,11 +46,28 @@ type obs struct {
 	closers                                  []func()
 	dones                                    []func() <-chan struct{}
 	doneAfterClose                           []bool
+	reuse1, reuse2                           []string // callbacks received by the first / second handler of a reused builder
 	afterStop                                []func() // reads issued once the base has shut down
 	readsAfterStop                           string
 	release                                  chan struct{}
 	stalled                                  []string
 	stalledClosed                            bool
+}
+
+func reuseUntyped(base kcache.Controller, o *obs) {
+	rec := func(into *[]string, k string) func(metav1.Object) {
+		return func(r metav1.Object) { *into = append(*into, k+":"+hx.ObjString(r)) }
+	}
+	b := kcache.BuildHandler().OnCreate(rec(&o.reuse1, "create")).OnUpdate(rec(&o.reuse1, "update")).OnDelete(rec(&o.reuse1, "delete"))
+	h1 := b.Create()
+	h2 := b.OnCreate(rec(&o.reuse2, "create")).OnUpdate(rec(&o.reuse2, "update")).OnDelete(rec(&o.reuse2, "delete")).Create()
+	for _, h := range []kcache.Handler{h1, h2} {
+		if m, err := kcache.NewMonitor(base, h); err != nil {
+			o.errs = append(o.errs, "NewMonitor:"+err.Error())
+		} else {
+			o.closers = append(o.closers, m.Close)
+		}
+	}
 }
 
 func stalledUntyped(base kcache.Controller, o *obs) {
@@ -140,6 +159,7 @@ func runUntyped(base kcache.Controller, o *obs) {
 }
 
 type inst struct {
+	reuse       bool // two handlers from one builder
 	noneAtReady bool // the base holds only a foreign object when it becomes ready (nothing of the type)
 	stall       bool // the stalled-beyond-buffer scenario
 	ad          adapter
@@ -186,7 +206,32 @@ func (in *inst) runStalled() {
 	}
 }
 
+// runReuse: typed and untyped monitors built from a reused handler builder see the same stream.
+func (in *inst) runReuse() {
+	mk := in.ad.mk
+	bases := []*hx.Root{hx.NewRoot(filter.Null()), hx.NewRoot(filter.Null())}
+	for _, b := range bases {
+		b.Init([]metav1.Object{mk("ns", "a", "1", "l=1")})
+	}
+	in.ad.reuse(bases[0].Pub, &in.typed)
+	reuseUntyped(bases[1].Pub, &in.untyped)
+	vs.SleepIdle(time.Duration(1))
+	for _, b := range bases {
+		b.Publish(kcache.NewEvent(kcache.EventTypeCreate, mk("ns", "b", "2", "l=1")))
+		b.Publish(kcache.NewEvent(kcache.EventTypeUpdate, mk("ns", "a", "3", "l=0")))
+	}
+	vs.SleepIdle(time.Duration(1))
+	in.finished = true
+	for _, b := range bases {
+		b.Stop()
+	}
+}
+
 func (in *inst) run() {
+	if in.reuse {
+		in.runReuse()
+		return
+	}
 	if in.stall {
 		in.runStalled()
 		return
@@ -291,6 +336,12 @@ func (in *inst) check(r *vs.Result) []string {
 			msgs = append(msgs, fmt.Sprintf("%s | %s: typed %v, untyped %v", class, n, tv, uv))
 		}
 	}
+	if in.reuse {
+		if strings.Join(t.reuse1, " ") != strings.Join(u.reuse1, " ") || strings.Join(t.reuse2, " ") != strings.Join(u.reuse2, " ") {
+			msgs = append(msgs, fmt.Sprintf("typed handler builder reused: handlers differ from the untyped ones | %s: first handler typed %v untyped %v; second handler typed %v untyped %v", n, t.reuse1, u.reuse1, t.reuse2, u.reuse2))
+		}
+		return msgs
+	}
 	if in.stall {
 		if strings.Join(t.stalled, " ") != strings.Join(u.stalled, " ") || t.stalledClosed != u.stalledClosed {
 			msgs = append(msgs, fmt.Sprintf("typed stalled subscription keeps other events than the untyped one | %s (buffer modelled as 2, 6 events while the consumer is stalled): typed drained %v (Events() closed after Close: %v), untyped drained %v (closed: %v)", n, t.stalled, t.stalledClosed, u.stalled, u.stalledClosed))
@@ -371,6 +422,14 @@ func Property() runner.Property {
 						return explore.Instance{Run: in.run, Check: in.check, Outcome: in.outcome}
 					},
 				}, Split: true})
+				out = append(out, runner.Sc{Scenario: explore.Scenario{
+					Name: "c20/handler-builder-reused/" + ad.name, Mode: "S2", Bound: d,
+					Cfg: vs.Config{Timers: vs.TimersIdle, MaxSteps: 400000},
+					New: func() explore.Instance {
+						in := &inst{ad: ad, reuse: true}
+						return explore.Instance{Run: in.run, Check: in.check, Outcome: in.outcome}
+					},
+				}})
 				out = append(out, runner.Sc{Scenario: explore.Scenario{
 					Name: "c20/stalled-beyond-buffer/" + ad.name, Mode: "S2", Bound: d,
 					Cfg: vs.Config{Timers: vs.TimersIdle, MaxSteps: 400000, Bufsiz: 2},
